@@ -305,3 +305,12 @@ Definition ratectl_qmax (v : Z) : Z :=
   fold_left (fun q r => let '(op, c, d) := r in
                         if (if op =f? 0 then q <? c else q <=? c) then d else q)
             F.ratectl_qmax_rule v.
+
+(** The Preprocessing bit set as the lossy encoder reads it: the segment map is smoothed
+    (assignSegments) iff more than one segment is used and [Preprocessing & mask <> 0] for the
+    regenerated mask(s) of the lossy package's bit tests; dithering is [cDither] above. *)
+Definition segment_smooth_on (c : lcfg) : bool :=
+  (cSegments c >? 1) &&
+  existsb (fun t => if snd t =f? 1 then negb (Z.land (cPreprocessing c) (fst t) =? 0)
+                    else Z.land (cPreprocessing c) (fst t) =? 0) F.lossy_preprocessing_tests.
+Definition dither_on (c : lcfg) : bool := match cDither c with Some _ => true | None => false end.
